@@ -18,6 +18,31 @@ def generate(work, mode, out, env):
     return common.count_lines(out)
 
 
+def apalache(work, ev):
+    """Unbounded part: Apalache over the whole i32 range and every array length (spec/apalache/SliceInt.tla):
+    Init => IndInv, IndInv /\\ Next => IndInv' (so no overflow / out-of-bounds index ever), and the loop as found must fail."""
+    d = os.path.join(common.SPEC, "apalache")
+    outdir = work.path("apalache-out")
+    runs = [("base: Init => IndInv", ["--cinit=ConstInit", "--inv=IndInv", "--length=0"], "NoError"),
+            ("step: IndInv /\\ Next => IndInv'", ["--cinit=ConstInit", "--init=IndInit", "--inv=IndInv", "--length=1"], "NoError"),
+            ("negative control: unchecked loop overflows", ["--cinit=ConstInitAsFound", "--inv=NoOverflow", "--length=3"], "Error")]
+    res = []
+    for label, args, want in runs:
+        try:
+            p = subprocess.run(["apalache-mc", "check", "--out-dir=" + outdir] + args + ["SliceInt.tla"], cwd=d, stdout=subprocess.PIPE,
+                               stderr=subprocess.STDOUT, timeout=900)
+        except subprocess.TimeoutExpired:
+            raise ToolError("apalache timed out on " + label)
+        out = p.stdout.decode("utf-8", "replace")
+        got = "NoError" if "The outcome is: NoError" in out else ("Error" if "The outcome is: Error" in out else "?")
+        if got != want:
+            raise ToolError("apalache %s: expected %s, got %s\n%s" % (label, want, got, out[-1500:]))
+        res.append({"obligation": label, "outcome": got})
+        log("  APALACHE %-50s %s" % (label, got))
+    ev.extra["apalache_inductive_invariant"] = {"module": "spec/apalache/SliceInt.tla", "domain": "start, stop, step over all of i32; len 0..2^31-1", "runs": res}
+    ev.trusted.append("Apalache 0.58 (SMT-based) for the inductive invariant of the slice loop over the whole i32 range")
+
+
 def conformance(prop, tier, seed, work, ev, drv):
     t = TIERS[tier]
     rejects = []
@@ -47,6 +72,7 @@ def run(prop, tier, seed, work, ev):
     drv = build_driver()
     tlc_ok("mc/MC_Slice.tla", t["mc"], work, ev=ev, label="Slice L1|=L0 " + tier)
     tlc_must_fail("mc/MC_Slice.tla", "MC_Slice_neg.cfg", work, invariant="Inv_NoFail", ev=ev)
+    apalache(work, ev)
     ev.exhaustive = True
     ev.rule = ("cases: every (len,start,stop,step) of the enumerated boundary domain through `@[a:b:c]` and "
                "Variable::slice, every `@[n]`, non-array subjects, step 0; plus seeded random tuples over the whole "
